@@ -32,6 +32,8 @@ type Result struct {
 	KnownKey   string   // classifier key of the known-finding class this case belongs to ("" = none)
 	Harness    string   // non-empty: the harness itself failed (inconclusive, never a violation)
 	Execs      int      // number of engine executions performed for this case
+	// Counts are property-specific counters summed over all cases into the evidence (coverage.<key>)
+	Counts map[string]float64
 }
 
 // Prop describes one property check.
@@ -142,6 +144,10 @@ func (s *Stats) Record(c any, r Result) {
 	}
 	for _, l := range r.Labels {
 		s.Labels[l]++
+	}
+	for k, v := range r.Counts {
+		prev, _ := s.Extra[k].(float64)
+		s.Extra[k] = prev + v
 	}
 	if r.NonTrivial {
 		s.NonTrivial++
